@@ -416,21 +416,11 @@ func (s *scope) setInstance(descriptor *Descriptor, key instanceKey, instance an
 	switch descriptor.Lifetime {
 	case Singleton:
 		s.rootProvider.setSingleton(key, instance)
-	case Scoped:
-		s.instancesMu.Lock()
-		if s.instances == nil {
-			s.instancesMu.Unlock()
-			// Close has finished: nobody else will dispose this instance
-			if d, ok := instance.(Disposable); ok {
-				_ = d.Close()
-			}
-			return ErrScopeDisposed
-		}
-		s.instances[key] = instance
-		s.instancesMu.Unlock()
-		verifPoint("scope.setInstance.cached")
-		fallthrough
-	case Transient:
+	case Scoped, Transient:
+		// Track for disposal before the instance becomes visible in the cache:
+		// as soon as another goroutine can find it there it can construct a
+		// dependent of it, and the dependent has to come later in the disposal
+		// list so that it is closed first.
 		if d, ok := instance.(Disposable); ok {
 			s.disposablesMu.Lock()
 			if s.drained {
@@ -442,6 +432,19 @@ func (s *scope) setInstance(descriptor *Descriptor, key instanceKey, instance an
 			}
 			s.disposables = append(s.disposables, d)
 			s.disposablesMu.Unlock()
+		}
+		verifPoint("scope.setInstance.tracked")
+
+		if descriptor.Lifetime == Scoped {
+			s.instancesMu.Lock()
+			if s.instances == nil {
+				// Close has finished; it has disposed the instance if it was
+				// tracked above
+				s.instancesMu.Unlock()
+				return ErrScopeDisposed
+			}
+			s.instances[key] = instance
+			s.instancesMu.Unlock()
 		}
 	}
 
